@@ -1840,7 +1840,8 @@ class SemiEllipse(Term):
             * np.where(np.isnan(x), np.nan, 1.0)
             * np.where(
                 (x >= s) & (x <= e),
-                np.sqrt(r**2 - np.square(x - c)) / r,
+                # clamped at zero: at the ends of the support the rounded difference of squares can be slightly negative
+                np.sqrt(np.maximum(r**2 - np.square(x - c), 0.0)) / r,
                 0,
             )
         )
